@@ -592,6 +592,14 @@ fn run(prop: &str, tier: Tier, cancel: bool) -> i32 {
         let st = explore(&name, h.config(), &h, &cfg);
         rep.add(st);
     }
+    if cancel {
+        // the same guarantee over the transports zlink ships: real socket pairs, tokio and smol
+        rep.require_goal("receive-abandoned-mid-traffic");
+        rep.rule.push_str("; plus (child process `sockets c07-child`) real Unix socket pairs with zlink-tokio and zlink-smol: 1..3 messages of 1 B .. 70 KB / 400 KB in one or both directions, the first 8..14 steps of the schedule are choice points among {default, poll the sender, poll the receiver, drop the pending receive future} within a deviation budget; the received sequence must be the sent one");
+        if let Err(code) = crate::common::child_phase_bin(&mut rep, "main", "sockets", "c07-child", tier, "real-sockets/receive-abandoned(child)") {
+            return code;
+        }
+    }
     rep.finish()
 }
 
@@ -603,6 +611,9 @@ pub fn run_c07(tier: Tier) -> i32 {
 }
 
 pub fn replay(v: &Value) -> Replayed {
+    if let Some(r) = crate::common::replay_child(v) {
+        return r;
+    }
     if v["harness"].get("max_conns").is_some() {
         return crate::server::replay(v);
     }
